@@ -15,7 +15,7 @@ RULE = (
     "Pairs (P, P'): (a) P' is P under another layout (separators, comments, whitespace) and with integer-valued "
     "gate arguments respelled (1 <-> 1.0): the circuits must be equal; (b) P' is a SINGLE-SITE mutant of P made at "
     "model level - gate name, one argument value, one more/fewer argument, qubit index, loop count, subcircuit "
-    "count, block kind of a block with >= 2 statements, alias bound, let value, register size, usepulses module, "
+    "count, block kind of a block with >= 2 statements, alias bound, let value, register size, usepulses module / order of the imports / a repeated import, "
     "which parameter a macro body uses: whenever the reference semantics says meaning or declarations differ the "
     "circuits must compare unequal in both directions (mutants the reference cannot tell apart, or that are "
     "invalid, are discarded and counted). Always: c == c, (a == b) == (b == a), c == parse(generate(c)), and "
@@ -180,6 +180,29 @@ def _sites(p):
             return True
 
         out.append(("usepulses-module", 0, False, use))
+    if len(p["usepulses"]) >= 2 and len(set(p["usepulses"])) >= 2:
+
+        def reorder(ch):
+            # later imports win: the ORDER of the imports is part of what the program says
+            u = p["usepulses"]
+            i = ch % (len(u) - 1)
+            if u[i] == u[i + 1]:
+                return False
+            u[i], u[i + 1] = u[i + 1], u[i]
+            return True
+
+        out.append(("usepulses-order", 0, False, reorder))
+    if p["usepulses"]:
+
+        def repeat(ch):
+            # ... and so is a repeated import (A, B, A is not A, B), unless it repeats the last one
+            u = p["usepulses"]
+            if len(set(u)) < 2 or u[ch % len(u)] == u[-1]:
+                return False
+            u.append(u[ch % len(u)])
+            return True
+
+        out.append(("usepulses-repeat", 0, False, repeat))
     return out
 
 
